@@ -557,7 +557,7 @@ def c17(tier):
     seed = vlib.seed()
     reg = spec_regression(wd)
     if tier == 'quick':
-        files = generate(wd, seed, 3600, 3, 3, 10000)     # ~3000 records (a rejected definition gives one)
+        files = generate(wd, seed, 14400, 6, 6, 10000)     # ~11000 records (a rejected definition gives one)
     else:
         files = generate(wd, seed, 120000, 12, 6, 30000)  # ~100 000 records
     files = [reg['file']] + files
